@@ -52,7 +52,7 @@ _problems = {}
 def get_problem(case):
     """One Problem object per problem description (creating one costs a mkdir/rmdir); the per-case state is reset."""
     import json
-    key = json.dumps([case["criteria"], case["bounds"], case["initial"]])
+    key = json.dumps([case["criteria"], case["bounds"], case["initial"], case.get("extras")])
     p = _problems.get(key)
     if p is None:
         if len(_problems) > 600:
@@ -70,6 +70,9 @@ def make_problem(case0):
             self.name = "verif"
             self.parameters = [dict(name="x%d" % i, bounds=list(b), initial_value=iv)
                                for i, (b, iv) in enumerate(zip(case0["bounds"], case0["initial"]))]
+            # heterogeneous declarations: some parameters declare a precision / an integer type, later ones do not
+            for prm, extra in zip(self.parameters, case0.get("extras") or []):
+                prm.update(extra)
             self.costs = [dict(name="f%d" % i) if c is None else dict(name="f%d" % i, criteria=c)
                           for i, c in enumerate(case0["criteria"])]
             self.v_lock = threading.Lock()
@@ -516,7 +519,13 @@ def gen_problem(rng, n=None, m=None, ncons=None):
         lb = rng.choice([-5.0, 0.0, 1.0, -0.5, rng.uniform(-10, 10)])
         bounds.append([lb, lb + rng.choice([1.0, 2.0, 0.5, 10.0, rng.uniform(0.1, 7)])])
     crit = [rng.choice(["minimize", "maximize", "maximize", None]) for _ in range(m)]
-    return {"criteria": crit, "bounds": bounds, "initial": [rng.uniform(b[0], b[1]) for b in bounds],
+    extras = None
+    if n >= 2 and rng.random() < 0.3:
+        extras = [{} for _ in range(n)]
+        bounds[0] = [float(rng.randint(-3, 0)), float(rng.randint(1, 4))]
+        extras[0] = rng.choice([{"precision": 1.0}, {"parameter_type": "integer"}, {"precision": 0.5}])
+        bounds[-1] = [0.25, 0.75]
+    return {"criteria": crit, "bounds": bounds, "extras": extras, "initial": [rng.uniform(b[0], b[1]) for b in bounds],
             "formula": {"costs": [[rng.uniform(-2, 2), rng.choice([1.0, 0.5, rng.uniform(0.1, 3)]), rng.uniform(-50, 50)]
                                   for _ in range(m)],
                         "cons": [[rng.choice([1.0, -1.0]), rng.uniform(-3, 3)] for _ in range(ncons)]},
